@@ -154,12 +154,14 @@ def attr_c06(ev, names):
         return ev.get("gk") == "pre" or (ev.get("gk") in ("alias", "traps") and "frame" in names)
     if fam(ev, "a"):
         return any_in(names, {"frame", "ctxframe"})
+    if fam(ev, "t"):
+        return "parse-pre" in names
     return fam(ev, "mh")
 
 
 PROPS["C06"] = dict(
     mc=[("MC_ErrDec", None)],
-    drivers=[("pre", "TraceRel"), "specials", "machine"],
+    drivers=[("pre", "TraceRel"), "machine", "parse"],
     attr=attr_c06,
     rule="each case is executed into 7 destination pre-states; all recorded outcomes must be identical; operands unchanged",
 )
@@ -190,7 +192,7 @@ def attr_t(tks, nameset):
 PROPS["C14"] = dict(
     mc=[("MC_Text", None)],
     drivers=["parse", "format"],
-    attr=attr_t({"parse", "text", "format"}, {"accept", "nilret", "parse-val", "text", "format", "panic"}),
+    attr=attr_t({"parse", "text", "format"}, {"accept", "nilret", "parse-val", "parse-pre", "text", "format", "panic"}),
     rule="parsing: every string of length <=4 (thorough 5) over a 16-symbol alphabet, grammar sentences and their single/"
          "double character mutations, keyword neighbours, limit cases, seeded bytes, through SetString/NewFromString/"
          "UnmarshalText/Scan, judged by ParseSpec; formatting: every Text/String/Marshal/Value/verb form judged by TextOf "
